@@ -5,8 +5,8 @@ import re
 
 OK, ERR, EXT = "ok", "err", "ext"
 MAX_INDEX = 2**53 - 1
-_CANON = re.compile(r"^(0|[1-9][0-9]*)$")  # ASCII digits only
-_NEG = re.compile(r"^-[0-9]+$")
+_CANON = re.compile(r"0|[1-9][0-9]*")  # ASCII digits only
+_NEG = re.compile(r"-[0-9]+")
 
 
 def escape(token: str) -> str:
@@ -38,7 +38,7 @@ def parse(text: str):
 
 
 def is_canonical_index(tok: str) -> bool:
-    return bool(_CANON.match(tok)) and tok.isascii()
+    return bool(_CANON.fullmatch(tok)) and tok.isascii()  # fullmatch: `$` would accept "5\n"
 
 
 def step(value, tok: str):
@@ -57,7 +57,7 @@ def step(value, tok: str):
             if i < len(value):
                 return OK, value[i]
             return ERR, "index out of range"
-        if _NEG.match(tok):
+        if _NEG.fullmatch(tok):
             return EXT, "negative index"
         if tok[:1] == "#":
             return EXT, "index pointer token on array"
@@ -85,6 +85,9 @@ def selftest():
             errs.append("RFC 6901 section 5: %r -> %r %r" % (text, kind, got))
         if encode(parse(text)) != text:
             errs.append("encode(parse(%r)) = %r" % (text, encode(parse(text))))
+    for t in ("5\n", "\n5", "5 ", "05", "+5", "５"):
+        if is_canonical_index(t):
+            errs.append("%r is not a canonical index" % t)
     if parse("/~01") != ["~1"]:
         errs.append("~01 must decode to ~1")
     return errs
